@@ -68,6 +68,8 @@ ProbeOpt(codes) ==
 \*  g read h close i fopen j fwrite k fclose l free)
 MustReport == armed \notin {"munmap", "close", "free", ""}
 
+TwinDiffers(e) == e.twin.ret # e.ret \/ e.twin.off1 # e.off1 \/ e.twin.dest # e.dest \/ (e.twin.outok /\ e.outok /\ e.twin.out # e.out)
+
 JudgeCall(e, s, isCount) ==
   LET codes == [j \in 1..Len(e.prog) |-> CodeOf(e.prog[j], s.opt)]
       lens  == [j \in 1..Len(codes) |-> Len(codes[j])]
@@ -90,6 +92,9 @@ JudgeCall(e, s, isCount) ==
   \* ---- properties, on the observation ----
   ELSE IF ~e.det THEN "C06:nondeterministic-or-depends-on-buffer-contents"
   ELSE IF e.ret \notin {0, 1} THEN "C09:return-value"
+  \* a file entry point is judged against its in-memory counterpart first (C19); what both get wrong is reported below
+  ELSE IF "twin" \in DOMAIN e /\ e.file /\ ("twcfg" \in DOMAIN e => e.twcfg = <<s.opt.mov, s.opt.swap, s.opt.nobase, s.fit, s.off>>) /\ TwinDiffers(e)
+       THEN "C19:file-differs-from-string"
   ELSE IF s.ext /\ e.outside # 0 THEN "C07:outside-buffer"
   ELSE IF s.ext /\ e.lo # -1 /\ (e.lo < e.off0 \/ e.hi >= s.cap) THEN "C07:outside-buffer-or-before-start"
   ELSE IF s.ext /\ \E st \in RngT(e.steps) : st.k # "grow" /\ (st.pos + st.len > s.cap \/ st.pos + T > s.cap) THEN "C07:reserve"
@@ -105,7 +110,7 @@ JudgeCall(e, s, isCount) ==
   ELSE IF e.ret = 0 /\ m = "F" /\ e.outok /\ (LET ref == RefFit(lens, c, e.off0, 1) IN
                                               e.off1 # ItemsEnd(ref, e.off0) \/ LayoutWhy(ref, codes, e.out, e.off0, 1, 0) # "") THEN "C13:fitting"
   ELSE IF "twcfg" \in DOMAIN e /\ e.twcfg # <<s.opt.mov, s.opt.swap, s.opt.nobase, s.fit, s.off>> THEN "driver:twin-config"
-  ELSE IF "twin" \in DOMAIN e /\ (e.twin.ret # e.ret \/ e.twin.off1 # e.off1 \/ e.twin.dest # e.dest \/ (e.twin.outok /\ e.outok /\ e.twin.out # e.out))
+  ELSE IF "twin" \in DOMAIN e /\ TwinDiffers(e)
        THEN (IF e.file THEN "C19:file-differs-from-string" ELSE "C15:differs-from-fresh-instance")
   ELSE IF "mirror" \in DOMAIN e /\ (e.mirror.ret # e.ret \/ (e.ret = 0 /\ (e.mirror.off1 # e.off1 \/ e.mirror.hash # e.hash)))
        THEN "C08:differs-from-caller-buffer"
